@@ -73,6 +73,9 @@ static void reb_simulation_add_local(struct reb_simulation* const r, struct reb_
 		reb_tree_add_particle_to_tree(r, r->N);
 	}
 	(r->N)++;
+    // The BS step size controller needs to start afresh when N changes. Set the (stored) flag right away,
+    // not at the next step, so that a copy or snapshot taken in-between behaves the same as the original.
+    r->ri_bs.first_or_last_step = 1;
     if (r->integrator == REB_INTEGRATOR_MERCURIUS){
         struct reb_integrator_mercurius* rim = &(r->ri_mercurius);
         if (r->ri_mercurius.mode==0){ //WHFast part
@@ -326,6 +329,7 @@ struct reb_particle reb_simulation_particle_by_hash_mpi(struct reb_simulation* c
 
 void reb_simulation_remove_all_particles(struct reb_simulation* const r){
 	reb_tree_delete(r); // The tree cells refer to particle indices. They would be stale.
+    r->ri_bs.first_or_last_step = 1; // N changes. See reb_simulation_add.
 	r->N 		= 0;
 	r->N_allocated 	= 0;
 	r->N_active 	= -1;
@@ -420,6 +424,7 @@ int reb_simulation_remove_particle(struct reb_simulation* const r, int index, in
         }
     }
 
+    r->ri_bs.first_or_last_step = 1; // N changes. See reb_simulation_add.
 	if (r->N==1 && r->tree_root==NULL){ // With a tree, the last particle is flagged and removed in update_tree like any other.
 	    r->N = 0;
         if(r->free_particle_ap){
